@@ -55,6 +55,8 @@ pub struct AppSide {
     pub dgrams_sent: Vec<Vec<u8>>,
     pub dgrams_recvd: Vec<Vec<u8>>,
     pub unordered_permille: u64,
+    pub early: bool,
+    pub restarts: u32,
 }
 
 pub struct Workload {
@@ -88,6 +90,24 @@ impl Workload {
             .collect()
     }
 
+    /// 0-RTT: start the client's workload before the handshake completes (early data).
+    pub fn start_early(&mut self, sim: &mut Sim, node: usize, ch: usize) {
+        self.sides[node].started = true;
+        self.sides[node].early = true;
+        self.open_more(sim, node, ch);
+    }
+
+    /// 0-RTT was rejected: everything done so far on this side is void; start again on fresh streams.
+    pub fn restart_side(&mut self, node: usize) {
+        let s = &mut self.sides[node];
+        s.next_plan = 0;
+        s.send.clear();
+        s.recv.clear();
+        s.restarts += 1;
+        let all: Vec<Vec<u8>> = s.dgrams_sent.drain(..).collect();
+        s.dgrams_to_send.extend(all);
+    }
+
     /// Process pending application events of both sides and act on them. Purely event-driven apart from the
     /// initial kick when `Connected` is seen.
     pub fn tick(&mut self, sim: &mut Sim) {
@@ -102,6 +122,10 @@ impl Workload {
                 self.events_seen += 1;
                 match ev {
                     Event::Connected => {
+                        if self.sides[node].early && !sim.conn(node, ch).accepted_0rtt() {
+                            // the server rejected early data: the streams used so far no longer exist
+                            self.restart_side(node);
+                        }
                         self.sides[node].started = true;
                         self.open_more(sim, node, ch);
                         self.send_dgrams(sim, node, ch);
